@@ -347,8 +347,10 @@ def _special_text(st, form, vi, vr, used):
         cores = []
     elif kind == "colon-octets" and not form["plain"]:
         # AA:BB:CC... (a localized SNMPv3 key, a MAC-like token): still clear text to netconan, as is its twin with one non-hex letter
-        n = random.Random(st["sp_seed"]).choice([2, 6, 16, 20])
+        # (two or three all-digit parts would read as a BGP community, which "set community" rightly leaves alone)
+        n = random.Random(st["sp_seed"]).choice([6, 16, 20])
         octs = ["%02x" % r.randrange(256) for _ in range(n)]
+        octs[0] = r.choice("abcdef") + octs[0][1]
         if vi == 1:
             octs[r.randrange(n)] = r.choice("0123456789abcdef") + r.choice("ghkmz")
         t = ":".join(octs)
